@@ -37,7 +37,7 @@ META = {
     "explanation": "lag invariant proved for the loop model; implementation traces validated against it; memory measured",
 }
 
-LAG_EXPECTED = {"json": 0, "msgpack": 0, "yaml": 1, "yaml16": 1, "yaml32": 1}     # what the model predicts with need k = end of k (JSON, MessagePack) / start of k+1 (YAML)
+LAG_EXPECTED = {"json": 0, "msgpack": 0, "yaml": 1, "yaml16": 1, "yaml32": 1, "yamls": 1, "yamlf": 1}     # what the model predicts with need k = end of k (JSON, MessagePack) / start of k+1 (YAML)
 LAG_BOUND = 2                                             # what the property demands
 KNOWN_REENC = "K-C05-utf16-yaml-reencoder-fills-buffer"
 
@@ -58,10 +58,13 @@ def run(outcome, tier, seed):
     reqs = []
     ns = [30, 300, 3000] + ([20000, 200000] if tier == "thorough" else [20000])
     sizes = [48, 200, 5000] + ([70000, 262144] if tier == "thorough" else [70000])
-    for fmt in ("json", "msgpack", "yaml", "yaml16", "yaml32"):
+    # yamls: scalar documents after a first mapping; yamlf: flow sequences, the first starting at byte 0 with '['
+    for fmt in ("json", "msgpack", "yaml", "yaml16", "yaml32", "yamls", "yamlf"):
         for to in ("json", "msgpack", "yaml"):
             if tier == "quick" and to == "msgpack" and fmt != "json":
                 continue
+            if fmt in ("yamls", "yamlf") and to != "json":
+                continue        # the harness counts written documents by their size in bytes, equal only in JSON
             if fmt in ("yaml16", "yaml32") and to != "json" and tier == "quick":
                 continue
             for n in ns:
@@ -70,7 +73,7 @@ def run(outcome, tier, seed):
                         continue
                     for packet in (size, max(1, size // 3), size * 3 + 7, 1 if n * size < 200000 else 4096):
                         for detect in (False, True):
-                            if tier == "quick" and rng.random() < 0.6:
+                            if tier == "quick" and rng.random() < (0.6 if fmt not in ("yamls", "yamlf") else 0.3):
                                 continue
                             reqs.append({"id": len(reqs), "op": "stream", "format": fmt, "to": to, "n": n, "size": size,
                                          "packet": packet, "detect": detect})
